@@ -40,6 +40,15 @@ func Run(c *common.Ctx) error {
 		}
 		h.Close()
 	}
+	// received files: the stream and the backup service
+	if err := streamedFrames(c, c.Rng.Fork()); err != nil {
+		return err
+	}
+	for _, km := range [][2]int{{5, 3}, {2, 4}, {3, 3}} {
+		if err := restoreOverOwnHistory(c, c.Rng.Fork(), km[0], km[1]); err != nil {
+			return err
+		}
+	}
 	cfr := c.Cases("cases_c09r", hist.CoqHeader, "list (N * N) * bool * N * list N", "mismatches_retention")
 	for i := 0; i < c.Pick(1, 5); i++ {
 		if err := replicaRetention(c, c.Rng.Fork(), cfr); err != nil {
